@@ -1,4 +1,5 @@
 import PhyVerif.Lemmas.C05
+import PhyVerif.Model.C05b
 import PhyVerif.Spec.C09b
 import PhyVerif.Lemmas.C09b
 /-! Second part of the C05 proofs: cardinality of the neighbourhood at a distance tie (`nearCountOK`), what
@@ -240,5 +241,112 @@ theorem sparse_listed_iff (wmi : Mat) (sc : Rat) (Tw : Mat) (cols : List Int) (m
     exact ⟨j, a, e, b, d⟩
   · rintro ⟨j, a, e, b, d⟩
     exact ⟨j, (mem_keptCols Tw cols m j).2 ⟨a, b, d⟩, e⟩
+
+/-! ### float32 amplitudes: the exact peak-to-peak IS the single precision subtraction under `ptpExactF` -/
+
+theorem roundNE_zero (p : Nat) : roundNE p 0 = 0 := by simp [roundNE]
+
+theorem getD_chAmps_exact (p : Nat) (T : Mat) (hp : ptpExactF p T = true) (c : Nat) :
+    roundNE p ((chAmps T).getD c 0) = (chAmps T).getD c 0 := by
+  unfold ptpExactF at hp
+  rw [List.all_eq_true] at hp
+  by_cases hc : c < (chAmps T).length
+  · have e : (chAmps T).getD c 0 = (chAmps T)[c] := by simp [List.getD_eq_getElem?_getD, hc]
+    rw [e]
+    exact beq_iff_eq.1 (hp _ (List.getElem_mem hc))
+  · have e : (chAmps T).getD c 0 = 0 := by
+      simp [List.getD_eq_getElem?_getD, List.getElem?_eq_none (Nat.le_of_not_lt hc)]
+    rw [e, roundNE_zero]
+
+/-- automatic selection: every reported amplitude is a `p`-bit value, i.e. the rounded subtraction
+`max − min` of the real code returns exactly it -/
+theorem findBest_amp_exact (g : Geometry) (T : Mat) (thr : Rat) (p : Nat) (hp : ptpExactF p T = true) :
+    ∀ a ∈ (findBestChannels g T thr).2.1, roundNE p a = a := by
+  intro a ha
+  rw [findBest_amp] at ha
+  obtain ⟨c, _, rfl⟩ := List.mem_map.1 ha
+  exact getD_chAmps_exact p T hp c
+
+/-- explicit list: the same -/
+theorem explicit_amp_exact (g : Geometry) (wmi : Mat) (sc : Rat) (T : Mat) (l : List Nat) (thr : Rat) (p : Nat)
+    (hwf : DenseWF g T) (hl : ∀ c ∈ l, c < ncols T) (hp : ptpExactF p T = true) :
+    ∀ a ∈ (getTemplateDense g wmi sc T (some l) thr false).amplitude, roundNE p a = a := by
+  have h := dense_explicit_ok g wmi sc T l thr false hwf hl
+  simp only [Bool.false_eq_true, if_false] at h
+  unfold denseExplicitOK alignedOK at h
+  simp only [Bool.and_eq_true, beq_iff_eq] at h
+  obtain ⟨⟨⟨⟨_, hamp⟩, _⟩, hch⟩, _⟩ := h
+  intro a ha
+  rw [hamp, hch] at ha
+  obtain ⟨c, hc, rfl⟩ := List.mem_map.1 ha
+  rw [← chAmps_getD T c (hl c hc)]
+  exact getD_chAmps_exact p T hp c
+
+/-- sparse storage: when every kept column's exact peak-to-peak is a `p`-bit value, so is every reported amplitude
+(the rounded subtraction of the real code returns exactly it) -/
+theorem sparse_amp_exact (wmi : Mat) (sc : Rat) (Tw : Mat) (cols : List Int) (m : Int) (unwh : Bool) (p : Nat)
+    (hp : ∀ j, j < (keptCols Tw cols m).length →
+      roundNE p (ptp (col (if unwh then unwhiten wmi sc
+          (Tw.map fun row => (keptCols Tw cols m).map fun j => row.getD j 0)
+          (some ((keptCols Tw cols m).map fun j => (cols.getD j 0).toNat))
+        else Tw.map fun row => (keptCols Tw cols m).map fun j => row.getD j 0) j))
+      = ptp (col (if unwh then unwhiten wmi sc
+          (Tw.map fun row => (keptCols Tw cols m).map fun j => row.getD j 0)
+          (some ((keptCols Tw cols m).map fun j => (cols.getD j 0).toNat))
+        else Tw.map fun row => (keptCols Tw cols m).map fun j => row.getD j 0) j)) :
+    ∀ a ∈ (getTemplateSparse wmi sc Tw cols m unwh).amplitude, roundNE p a = a := by
+  intro a ha
+  generalize hT : (if unwh then unwhiten wmi sc
+          (Tw.map fun row => (keptCols Tw cols m).map fun j => row.getD j 0)
+          (some ((keptCols Tw cols m).map fun j => (cols.getD j 0).toNat))
+        else Tw.map fun row => (keptCols Tw cols m).map fun j => row.getD j 0) = T at hp
+  have hamp : (getTemplateSparse wmi sc Tw cols m unwh).amplitude =
+      (argsortDesc ((List.range (keptCols Tw cols m).length).map fun j => ptp (col T j))).map fun j =>
+        ((List.range (keptCols Tw cols m).length).map fun j => ptp (col T j)).getD j 0 := by
+    rw [← hT]; rfl
+  rw [hamp] at ha
+  obtain ⟨j, _, rfl⟩ := List.mem_map.1 ha
+  by_cases hj : j < (keptCols Tw cols m).length
+  · have e : ((List.range (keptCols Tw cols m).length).map fun j => ptp (col T j)).getD j 0 = ptp (col T j) := by
+      simp [List.getD_eq_getElem?_getD, hj]
+    rw [e]; exact hp j hj
+  · have e : ((List.range (keptCols Tw cols m).length).map fun j => ptp (col T j)).getD j 0 = 0 := by
+      simp [List.getD_eq_getElem?_getD, Nat.le_of_not_lt hj]
+    rw [e, roundNE_zero]
+
+/-! ### no kept column -/
+
+theorem colAbsMax_nonneg (Tw : Mat) (j : Nat) : 0 ≤ colAbsMax Tw j := by
+  unfold colAbsMax
+  by_cases hne : ((col Tw j).map fun x => if x < 0 then -x else x) = []
+  · rw [hne]; decide
+  · obtain ⟨hmem, _⟩ := C09.Lemmas.listMax_spec _ hne
+    obtain ⟨x, _, e⟩ := List.mem_map.1 hmem
+    rw [← e]
+    split
+    · linarith
+    · linarith
+
+theorem sparse_raises_of_no_signal (Tw : Mat) (cols : List Int) (m : Int) :
+    sparseRaises Tw cols m = true ↔ ∀ j ∈ usedCols cols m, colAbsMax Tw j = 0 := by
+  unfold sparseRaises keptCols
+  rw [List.isEmpty_iff, List.filter_eq_nil_iff]
+  simp only [decide_eq_true_eq, not_lt]
+  constructor
+  · intro h j hj
+    have hne : usedCols cols m ≠ [] := List.ne_nil_of_mem hj
+    obtain ⟨⟨j0, hj0, e0⟩, hle⟩ := usedMax_spec Tw cols m hne
+    have h0 := h j0 hj0
+    rw [e0] at h0
+    have hmx : listMax ((usedCols cols m).map (colAbsMax Tw)) ≤ 0 := by
+      by_contra hc
+      have : 0 < listMax ((usedCols cols m).map (colAbsMax Tw)) := not_le.1 hc
+      nlinarith
+    exact le_antisymm (le_trans (hle j hj) hmx) (colAbsMax_nonneg Tw j)
+  · intro h j hj
+    have hne : usedCols cols m ≠ [] := List.ne_nil_of_mem hj
+    obtain ⟨⟨j0, hj0, e0⟩, _⟩ := usedMax_spec Tw cols m hne
+    rw [h j hj, ← e0, h j0 hj0]
+    norm_num
 
 end PhyVerif.C05.Lemmas
